@@ -366,6 +366,23 @@ def run_blocks(col, tier):
                 bad = diff_dense(res, want)
                 return not bad, "%s: %s" % (w, "; ".join(bad))
             col.check("C02.O6", "IntegralForm mode 3, 2 fields", "full block layout: block (i,j) is the form of integrand i*nu+j, no transposition", chk_m3)
+    def chk_m3_same():
+        # two fields of the same shape: a swap of the off-diagonal integrands cannot show up as a shape error
+        flds = micro.make_fields(it, [("Field", 1, 1), ("Field", 1, 1)], ra, rb)
+        fc2 = micro.container(it, flds)
+        funs, refs = [], {}
+        for i in range(2):
+            for j in range(2):
+                f = fun_array("s%d%d_" % (i, j), (1, 1, nq, nc))
+                funs.append(f)
+                refs[(i, j)] = ref_bilinear(rb, rb, 1, 1, (lambda f: lambda ii, J, k, L, q, c: f[ii, k, q, c])(f), False, False)
+        form = it.call(IF, [], dict(fun=funs, v=fc2, dV=ra.dV, u=fc2, grad_v=[False, False], grad_u=[False, False]))
+        res = micro.dense(it.call_method(form, "assemble", []))
+        want = np.concatenate([np.concatenate([refs[(i, j)] for j in range(2)], axis=1) for i in range(2)], axis=0)
+        bad = diff_dense(res, want)
+        return not bad, "%s: %s" % (w, "; ".join(bad))
+    col.check("C02.O6", "IntegralForm mode 3, two fields of equal shape", "full block layout: block (i,j) is the form of integrand i*nu+j (row-major), no transposition", chk_m3_same)
+
     def chk_unknown():
         fields = block_layout(it, ra, rb)[:2]
         fc = micro.container(it, fields)
@@ -432,6 +449,21 @@ def run_axi(col):
         bad = diff_dense(res, want)
         return not bad, "%s: %s" % (w, "; ".join(bad))
     col.check("C02.O5", "axisymmetric bilinear form (mode 2)", "in-plane part + N_a N_b A_3333/R^2 + N_a A_33kL dN_b/R + dN_a A_iJ33 N_b/R, hoop terms on component 1, weight 2 pi R dV", chk_mode2)
+
+    def chk_mode2_vg():
+        # value test space x gradient trial space (follower loads): the third row of the integrand acts on delta u_r / R, the (3,3) column on u_r / R
+        f = fun_array("B", (3, 3, 3, nq, nc))
+        form = it.call(cls, [], dict(fun=f, v=v, dV=ra.dV, u=v, grad_v=False, grad_u=True))
+        res = it.call_method(form, "assemble", [])
+        iR = lambda q, c: ring.inv(R[q, c])
+        want = ref_bilinear(ra, ra, 2, 2, lambda i, J, k, L, q, c: f[i, k, L, q, c], False, True, weight=wgt)
+        want = want + ref_bilinear(ra, ra, 2, 2, lambda i, J, k, L, q, c: (f[2, 2, 2, q, c] * iR(q, c) * iR(q, c) if (i == 1 and k == 1) else ZERO), False, False, weight=wgt)
+        want = want + ref_bilinear(ra, ra, 2, 2, lambda i, J, k, L, q, c: (f[2, k, L, q, c] * iR(q, c) if i == 1 else ZERO), False, True, weight=wgt)
+        want = want + ref_bilinear(ra, ra, 2, 2, lambda i, J, k, L, q, c: (f[i, 2, 2, q, c] * iR(q, c) if k == 1 else ZERO), False, False, weight=wgt)
+        bad = diff_dense(res, want)
+        return not bad, "%s: %s" % (w, "; ".join(bad))
+    col.check("C02.O5", "axisymmetric bilinear form (mode 2, value test x gradient trial)",
+              "N_a B_ikL dN_b in-plane + N_a N_b B_333/R^2 + N_a B_3kL dN_b/R (row 1) + N_a B_i33 N_b/R (column 1), weight 2 pi R dV", chk_mode2_vg)
 
     def chk_mode30():
         f = fun_array("B", (3, 3, nq, nc))
